@@ -426,3 +426,4 @@ def structural(chk, repo, f):
 
 # added rules (appended to the explanation the evidence file carries)
 EXPLANATION += (" " + 'Added during the build (DESIGN.md 4.31, second table): the codec family is run on one master in two orders (no request depends on the requests before it), with differently split equal formats and mixed-width read-only tails.')
+EXPLANATION += (" Added after wave 10: raw data handed over in a bytearray is not queued as the caller's own buffer.")
